@@ -593,6 +593,9 @@ def write_evidence(prop, tier, verif_seed, level, results, wall, meta, violation
         "zsteps": env._state["zsteps"],
         "repo": env.repo_state(),
         "known_findings_hit": known_hits,
+        "run_isolation": "every run executes in a forked child of the warmed-up pool worker (C17: per configuration, fault runs fork again); "
+                         "module-level state never carries from one run to another",
+        "planned_runs": meta.get("planned_runs"),
     }
     cov[meta.get("time_key", "sim_time_s")] = round(sim_time, 3) if meta.get("time_key", "sim_time_s") == "sim_time_s" else steps
     cov.update(meta.get("extra", {}))
